@@ -232,9 +232,29 @@ impl Tables {
     }
 }
 
+thread_local! {
+    /// naming style of the input variables of the case being built (set by `VmCase::real_with_order`)
+    static NAME_STYLE: std::cell::Cell<u64> = const { std::cell::Cell::new(0) };
+}
+
+/// Input variable names: short ones, and long ones (40 and 70 bytes) that differ from each other in a
+/// single byte whose position varies from case to case - names are looked up by their full text,
+/// whatever their length and however similar they are.
 #[must_use]
 pub fn input_name(n: u8) -> String {
-    format!("v{n}")
+    let style = NAME_STYLE.with(std::cell::Cell::get);
+    let long = |len: usize| {
+        let mut b: Vec<u8> = "input_variable_of_the_generated_case_with_a_rather_long_name_to_tell_apart".bytes().cycle().take(len).collect();
+        let p = 1 + ((style / 4) as usize % (len - 2));
+        b[p] = b'A' + n % 26;
+        String::from_utf8(b).unwrap_or_default()
+    };
+    match style % 4 {
+        0 => format!("v{n}"),
+        1 => long(40),
+        2 => long(70),
+        _ => format!("in put-\u{df}{n}"),
+    }
 }
 
 /// Keep `Print`/`PrintLn` constructors referenced so that a signature change shows up at build time.
@@ -314,6 +334,8 @@ impl VmCase {
 
     /// Like `real`, declaring the inputs in the given order (a permutation of their indices).
     pub fn real_with_order(&self, t: &Tables, steps: usize, order: Option<&[usize]>) -> Result<PushState, String> {
+        // the naming style is a function of the case, so every state built for it uses the same names
+        NAME_STYLE.with(|s| s.set((self.inputs.len() as u64).wrapping_mul(5).wrapping_add((self.max_int as u64).wrapping_mul(3)).wrapping_add((self.max_bool as u64).wrapping_mul(7)).wrapping_add((self.int.len() as u64).wrapping_mul(11))));
         let program: Vec<PushProgram> = self
             .exec
             .iter()
